@@ -134,6 +134,49 @@ fn exhaustive_permissions(ctx: &mut Ctx) {
             }
         }
     }
+    // ... whatever its kind: every redirectable MIME type x every permission mask, on its own engine
+    if ctx.owns(sub, 0) {
+        let kinds = ["text/html", "image/gif", "application/json", "text/plain", "text/css", "image/png", "audio/mp3", "video/mp4", "text/xml", "application/javascript"];
+        let r = guarded(|| {
+            let mut lines = vec![];
+            let mut defs = vec![];
+            for (k, kind) in kinds.iter().enumerate() {
+                for p in 0..256u32 {
+                    lines.push(format!("||k.example/k{}p{}/$redirect=k{}p{}.res", k, p, k, p));
+                    defs.push(js(&format!("k{}p{}.res", k, p), "x", &[], p as u8, &[], kind).to_resource());
+                }
+            }
+            let mut fs = FilterSet::new(true);
+            fs.add_filters(&lines, opts(255));
+            let mut e = Engine::from_filter_set(fs, false);
+            e.use_resources(defs);
+            let mut bad = vec![];
+            let mut served = 0u64;
+            for (k, kind) in kinds.iter().enumerate() {
+                for p in 0..256u32 {
+                    let rq = Request::new(&format!("https://k.example/k{}p{}/x", k, p), "https://other.org/", "image").unwrap();
+                    let b = e.check_network_request(&rq);
+                    if b.redirect.is_some() {
+                        served += 1;
+                    }
+                    if b.redirect.is_some() && p != 0 {
+                        bad.push(json!({"kind": kind, "resource_permission": p, "redirect": b.redirect}));
+                    }
+                }
+            }
+            (bad, served)
+        });
+        match r {
+            Err(sig) => ctx.violation(sub, 2000, &format!("C18:{}", sig), json!({})),
+            Ok((bad, served)) => {
+                ctx.evals(2560);
+                ctx.obs("redirects_served_for_unpermissioned_resources_of_10_kinds", served as i64);
+                for d in bad {
+                    ctx.violation(sub, 2000, "C18:redirect-of-permissioned-resource", d);
+                }
+            }
+        }
+    }
     if complete {
         ctx.report.exhaustive.push("all 256 x 256 (resource permission, list permission) pairs (this shard's list permissions); redirect for all 256 resource permissions".into());
     }
@@ -468,7 +511,8 @@ fn arguments(ctx: &mut Ctx) {
         let seed = ctx.seed;
         let out = guarded(|| {
             let mut r = Rng::for_case(seed, "c18.args", idx);
-            let k = r.below(5);
+            // (function-style scriptlets take any number of arguments; templates stop at {{9}})
+            let k = if r.chance(1, 6) { 9 + r.below(8) } else { r.below(5) };
             let mut intended: Vec<String> = vec![];
             let mut spelt: Vec<String> = vec![];
             for i in 0..k {
